@@ -57,6 +57,8 @@ class ExprMixin(object):
             return SpecFn(n)
         if n == 'object' and not self.spec_mode:
             return ClassRef('object')
+        if n == '__file__' and not self.spec_mode:
+            return SV(STR, z3.String('module__file__'))   # the path of the module: an opaque string
         if n in BUILTIN_NAMES or (self.spec_mode and n in SPEC_NAMES):
             return SpecFn('builtin:' + n)
         if n in EXC_NAMES:
@@ -74,6 +76,8 @@ class ExprMixin(object):
                     for a in t.names:
                         if (a.asname or a.name.split('.')[0]) == n:
                             if isinstance(t, ast.ImportFrom):
+                                if t.module in ('ply',):       # `from ply import lex, yacc`: the name is a module
+                                    return ModuleRef('%s.%s' % (t.module, a.name))
                                 return SpecFn('func:' + a.name) if not a.name[:1].isupper() else ClassRef(a.name)
                             return ModuleRef(a.name)
                 if isinstance(t, ast.Assign) and len(t.targets) == 1 and isinstance(t.targets[0], ast.Name) and t.targets[0].id == n:
@@ -579,6 +583,8 @@ class ExprMixin(object):
             return ClassRef(attr)
         if base.name in ('logger', 'logging'):
             return SpecFn('builtin:log')
+        if base.name == 'os' and attr == 'path':
+            return ModuleRef('os.path')
         if base.name == 'collections' and attr == 'deque':
             return SpecFn('builtin:list')        # LIB: a deque built from an iterable iterates as that sequence
         if len(self.reg.by_base.get(attr, [])) > 1:
